@@ -176,6 +176,19 @@ type interp struct {
 	jmps int  // jumps taken
 	cut  int  // statements the model skipped because of a jump (non-triviality)
 	dc   bool // a bare `continue` aimed at its immediately enclosing loop was executed with statements after it
+	sib  bool // a `continue X` travelled past a later sibling statement that is itself a loop called X
+}
+
+// passes: signal sg leaves body at statement idx; note when a continue walks past a sibling loop of its own name
+func (m *interp) passes(sg signal, body []stmt, idx int, ctx []frame) {
+	if sg.kind != 2 {
+		return
+	}
+	for _, s := range body[idx+1:] {
+		if s.kind == sLoop && newFrame(s.loop, len(ctx)).name == sg.name {
+			m.sib = true
+		}
+	}
 }
 
 // countTags: how many tags the renderer hands out inside a body (to keep model tags aligned with the
@@ -224,6 +237,9 @@ func (m *interp) execBody(body []stmt, ctx []frame, env []string, base int) sign
 			m.out = append(m.out, tagOf(tag)+strings.Join(env, ""))
 			tag++
 		case sJump:
+			if s.j.kind == jContinue {
+				m.passes(signal{kind: 2, name: s.j.name}, body, idx, ctx)
+			}
 			m.cut += len(body) - idx - 1
 			if s.j.kind == jContinue && len(ctx) > 0 && ctx[len(ctx)-1].name == s.j.name && idx < len(body)-1 {
 				m.dc = true
@@ -241,6 +257,7 @@ func (m *interp) execBody(body []stmt, ctx []frame, env []string, base int) sign
 					continue
 				}
 				m.cut += len(body) - idx - 1
+				m.passes(sg, body, idx, ctx)
 				return sg
 			}
 		case sLoop:
@@ -265,6 +282,7 @@ func (m *interp) execBody(body []stmt, ctx []frame, env []string, base int) sign
 			tag += countTags(s.body)
 			if res.kind != 0 {
 				m.cut += len(body) - idx - 1
+				m.passes(res, body, idx, ctx)
 				return res
 			}
 		}
@@ -277,6 +295,7 @@ type expectation struct {
 	jumps   int
 	cut     int
 	dc      bool
+	sib     bool
 	outcome string
 }
 
@@ -302,26 +321,70 @@ func model(p program) expectation {
 		e.outcome = "completes"
 	}
 	m.out = append(m.out, "end")
-	e.lines, e.jumps, e.cut, e.dc = m.out, m.jmps, m.cut, m.dc
+	e.lines, e.jumps, e.cut, e.dc, e.sib = m.out, m.jmps, m.cut, m.dc, m.sib
 	return e
 }
 
 // ---- enumeration -----------------------------------------------------------------------------
 
 type bounds struct {
+	name      string
 	outerLen  int  // statements in the outer loop body
-	innerLen  int  // statements in an inner loop body
-	depth     int  // maximum nesting depth of inner loops (1 = outer + one inner)
-	allK      bool // compare with every loop value (else: first two)
-	outerCond bool // inner bodies may test the outer variable too
-	bareJumps bool
+	innerLen  int  // statements in the body of a loop nested directly in the outer loop
+	deepLen   int  // statements in the body of a loop nested two levels down
+	depth     int  // maximum nesting depth of inner loops (1 = outer + one inner); at most one loop statement per body
+	allK      bool // compare with every loop value (else: the first two)
+	outerCond bool // an `if` may test any loop variable in scope (else: the innermost only)
 }
 
-func boundsFor(quick bool) bounds {
+// spacesFor: the sub-spaces enumerated per tier, in order. A program that already belongs to an earlier
+// sub-space of the same tier is skipped, so no program is run twice.
+func spacesFor(quick bool) []bounds {
 	if quick {
-		return bounds{outerLen: 2, innerLen: 2, depth: 1, allK: false, outerCond: false, bareJumps: true}
+		return []bounds{{name: "q", outerLen: 2, innerLen: 2, depth: 1}}
 	}
-	return bounds{outerLen: 2, innerLen: 3, depth: 1, allK: true, outerCond: true, bareJumps: true}
+	return []bounds{
+		{name: "wide", outerLen: 3, innerLen: 1, depth: 1, allK: true, outerCond: true},
+		{name: "inner2", outerLen: 2, innerLen: 2, depth: 1, allK: true, outerCond: true},
+		{name: "deep", outerLen: 1, innerLen: 2, deepLen: 1, depth: 2, allK: true, outerCond: true},
+		{name: "deep-wide", outerLen: 2, innerLen: 1, deepLen: 1, depth: 2, allK: true, outerCond: true},
+	}
+}
+
+// metrics of a program, to decide membership of a sub-space
+type metrics struct {
+	outerLen, innerLen, deepLen, depth int
+	k3, outerCond                      bool
+}
+
+func measure(body []stmt, level int, m *metrics) {
+	switch level {
+	case 0:
+		m.outerLen = max(m.outerLen, len(body))
+	case 1:
+		m.innerLen = max(m.innerLen, len(body))
+	default:
+		m.deepLen = max(m.deepLen, len(body))
+	}
+	m.depth = max(m.depth, level)
+	for _, s := range body {
+		switch s.kind {
+		case sIf:
+			if s.ck >= 2 {
+				m.k3 = true
+			}
+			if s.cvar < level {
+				m.outerCond = true
+			}
+		case sLoop:
+			measure(s.body, level+1, m)
+		}
+	}
+}
+
+func (b bounds) contains(m metrics) bool {
+	return m.outerLen <= b.outerLen && m.innerLen <= b.innerLen && m.deepLen <= b.deepLen && m.depth <= b.depth &&
+		(b.allK || !m.k3) && (b.outerCond || !m.outerCond)
 }
 
 func jumpsFor(ctx []frame, inFunc bool) []jump {
@@ -343,10 +406,8 @@ func jumpsFor(ctx []frame, inFunc bool) []jump {
 func leaves(ctx []frame, inFunc bool, b bounds) []stmt {
 	ls := []stmt{{kind: sOut}}
 	js := jumpsFor(ctx, inFunc)
-	if b.bareJumps {
-		for _, j := range js {
-			ls = append(ls, stmt{kind: sJump, j: j})
-		}
+	for _, j := range js {
+		ls = append(ls, stmt{kind: sJump, j: j})
 	}
 	for d := len(ctx) - 1; d >= 0; d-- {
 		if d < len(ctx)-1 && !b.outerCond {
@@ -376,7 +437,11 @@ func bodies(ctx []frame, inFunc bool, b bounds, maxLen, depthLeft int, fn func([
 	if depthLeft > 0 {
 		for _, lk := range []int{lForeach, lWhile} {
 			f := newFrame(lk, len(ctx))
-			bodies(append(ctx[:len(ctx):len(ctx)], f), inFunc, b, b.innerLen, depthLeft-1, func(inner []stmt) bool {
+			innerLen := b.innerLen
+			if len(ctx) >= 2 {
+				innerLen = b.deepLen
+			}
+			bodies(append(ctx[:len(ctx):len(ctx)], f), inFunc, b, innerLen, depthLeft-1, func(inner []stmt) bool {
 				loops = append(loops, stmt{kind: sLoop, loop: lk, body: append([]stmt{}, inner...)})
 				return true
 			})
@@ -416,13 +481,24 @@ func bodies(ctx []frame, inFunc bool, b bounds, maxLen, depthLeft int, fn func([
 	return true
 }
 
-func enumerate(b bounds, fn func(program) bool) {
-	for _, inFunc := range []bool{false, true} {
-		outer := []frame{newFrame(lForeach, 0)}
-		if !bodies(outer, inFunc, b, b.outerLen, b.depth, func(body []stmt) bool {
-			return fn(program{inFunc: inFunc, body: body})
-		}) {
-			return
+func enumerate(spaces []bounds, fn func(program) bool) {
+	for si, b := range spaces {
+		for _, inFunc := range []bool{false, true} {
+			outer := []frame{newFrame(lForeach, 0)}
+			if !bodies(outer, inFunc, b, b.outerLen, b.depth, func(body []stmt) bool {
+				if si > 0 {
+					var m metrics
+					measure(body, 0, &m)
+					for _, earlier := range spaces[:si] {
+						if earlier.contains(m) {
+							return true
+						}
+					}
+				}
+				return fn(program{inFunc: inFunc, body: body})
+			}) {
+				return
+			}
 		}
 	}
 }
@@ -478,6 +554,9 @@ func check(c *vlib.Ctx, p program, sample bool) {
 		// feature of the program, not of the result: the model executed a bare `continue X` placed directly
 		// in the body of loop X with statements after it
 		suffix = "(bare-continue-in-own-loop)"
+	} else if exp.sib {
+		// likewise a feature of the program: a `continue X` that has to skip a later sibling loop called X
+		suffix = "(continue-past-sibling-loop-of-same-name)"
 	}
 	switch res {
 	case "hang":
@@ -494,7 +573,7 @@ func check(c *vlib.Ctx, p program, sample bool) {
 func run(c *vlib.Ctx) {
 	mx.Init(c.WorkDir)
 	n := 0
-	enumerate(boundsFor(c.Quick()), func(p program) bool {
+	enumerate(spacesFor(c.Quick()), func(p program) bool {
 		if !c.Next() {
 			return true
 		}
@@ -510,7 +589,7 @@ func run(c *vlib.Ctx) {
 func replay(c *vlib.Ctx, w string) {
 	mx.Init(c.WorkDir)
 	found := false
-	enumerate(boundsFor(false), func(p program) bool {
+	enumerate(spacesFor(false), func(p program) bool {
 		if p.text() == w {
 			found = true
 			check(c, program{p.inFunc, append([]stmt{}, p.body...)}, false)
@@ -519,7 +598,7 @@ func replay(c *vlib.Ctx, w string) {
 		return true
 	})
 	if !found {
-		enumerate(boundsFor(true), func(p program) bool {
+		enumerate(spacesFor(true), func(p program) bool {
 			if p.text() == w {
 				found = true
 				check(c, program{p.inFunc, append([]stmt{}, p.body...)}, false)
@@ -536,14 +615,14 @@ func replay(c *vlib.Ctx, w string) {
 // Count is used by the tuning test.
 func Count(quick bool) int {
 	n := 0
-	enumerate(boundsFor(quick), func(program) bool { n++; return true })
+	enumerate(spacesFor(quick), func(program) bool { n++; return true })
 	return n
 }
 
 func init() {
 	vlib.Register(&vlib.Check{
 		ID: "C39", Engine: "E2",
-		Rule: "every program `%[1,2,3] -> foreach i { BODY }; out end` (and the same wrapped in `function f { ...; out fend }; f; exitnum; out end`) where BODY is a sequence of 1..L statements from: a uniquely tagged `out` of the loop variables; a bare jump; `if { $var == K } then { out T+; JUMP; out T- }`; at most one inner loop (`%[a,b] -> foreach j { BODY' }` or a two-pass counter `while`) with BODY' of 1..L' such statements. JUMP ranges over `break`/`continue` of every loop name in scope, `break if`, and inside the function `return N` and `break f`. quick: L=2 L'=2, K in the first two values of the innermost variable; thorough: L=3 L'=2, every K and every variable in scope. stdout lines and exit number are compared with a reference interpreter written from the statement (break ends the nearest enclosing block of that name, continue goes to its next iteration, return ends the function with exit N, everything outside carries on). non-trivial = programs in which the model takes at least one jump that cuts off at least one statement",
+		Rule: "every program `%[1,2,3] -> foreach i { BODY }; out end` (and the same wrapped in `function f { ...; out fend }; f; exitnum; out end`) where BODY is a sequence of 1..L statements from: a uniquely tagged `out` of the loop variables; a bare jump; `if { $var == K } then { out T+; JUMP; out T- }`; at most one inner loop (`%[a,b] -> foreach j { BODY' }` or a two-pass counter `while`) whose BODY' has 1..L' such statements (and may itself hold one loop with a body of 1..L'' statements when depth 2 is allowed). JUMP ranges over `break`/`continue` of every loop name in scope, `break if`, and inside the function `return N` and `break f`. quick: L=2 L'=2 depth 1, K in the first two values of the innermost variable (28 362 programs); thorough: the union, without repeats, of (L=3,L'=1), (L=2,L'=2) at depth 1 and (L=1,L'=2,L''=1), (L=2,L'=1,L''=1) at depth 2, every K and every variable in scope (295 816 programs). stdout lines and exit number are compared with a reference interpreter written from the statement (break ends the nearest enclosing block of that name, continue goes to its next iteration, return ends the function with exit N, everything outside carries on). non-trivial = programs in which the model takes at least one jump that cuts off at least one statement",
 		Run:    run,
 		Replay: replay,
 		Assumptions: []string{
